@@ -73,9 +73,11 @@ func runAll(rep *explore.Report, prop, tier string, sweeps bool) {
 		if sweeps && s.Mode != "atomic" {
 			continue
 		}
-		e := &Explorer{Prop: prop, Rep: rep, S: s, Deadline: deadline, Workers: 1}
+		// these settings have about a thousand states; a regulator whose counters drift makes the space
+		// unbounded, so the search is cut at 30000 states (and the sweeps run on what was found)
+		e := &Explorer{Prop: prop, Rep: rep, S: s, Deadline: deadline, Workers: 1, MaxState: 30000}
 		e.Run()
-		if sweeps && !e.capped {
+		if sweeps {
 			e.Sweeps(4)
 		}
 		rep.Add("settings_with_a_second_tournament_in_process", 1)
